@@ -417,7 +417,7 @@ class ClientSession:
         self.proto = None
 
     def _connect(self, p, host, port):
-        t = FakeTransport(self.loop, p)
+        t = FakeTransport(self.loop, p, peer=(host, port))
         self.transports.append(t)
         return t
 
@@ -426,12 +426,19 @@ class ClientSession:
         asyncio.set_event_loop(None)
         shutil.rmtree(self.dir, ignore_errors=True)
 
-    def request(self, blob_hash, known, events, pre_hook=None):
-        """returns (observation dict, extras for the monitor)"""
+    def request(self, blob_hash, known, events, pre_hook=None, same_blob=False):
+        """returns (observation dict, extras for the monitor); same_blob: retry on the blob OBJECT of the previous
+        request (what BlobManager.get_blob hands out again)"""
         loop = self.loop
-        d = os.path.join(self.dir, 'r%d' % len(os.listdir(self.dir)))
-        os.mkdir(d)
-        blob = SpyBlobFile(loop, blob_hash, known, None, d)
+        if same_blob and getattr(self, 'last_blob', None) is not None:
+            blob, d = self.last_blob, self.last_dir
+            blob.spy = []
+        else:
+            d = os.path.join(self.dir, 'r%d' % len(os.listdir(self.dir)))
+            os.mkdir(d)
+            blob = SpyBlobFile(loop, blob_hash, known, None, d)
+        self.last_blob, self.last_dir = blob, d
+        lens_seen = {blob.length}
         t0 = loop.vt
         task = loop.create_task(request_blob(loop, blob, '127.0.0.1', 4444, 3, self.T, connected_protocol=self.proto))
         loop.drain()
@@ -463,6 +470,7 @@ class ClientSession:
             elif k == 'lost':
                 tr.peer_close()
             worst = max(worst, JSON_WORK.bytes - jb0)
+            lens_seen.add(blob.length)
         loop.drain()
         if not task.done():
             phase = 'pending'
@@ -491,10 +499,12 @@ class ClientSession:
         }
         extra = {'verified_flag': verified, 'on_disk': on_disk, 'elapsed': loop.vt - t0, 'request': sent_request,
                  'task': task, 'transport_closed': tr.closing, 'raised': list(tr.raised),
-                 'json_bytes': worst, 'rx': rx}
+                 'json_bytes': worst, 'rx': rx, 'lens_seen': [x for x in lens_seen if x is not None]}
         if phase == 'pending':
             task.cancel()
             loop.drain()
+        if not same_blob:
+            pass
         blob.close()
         return obs, extra
 
@@ -529,11 +539,13 @@ def monitor_client(req, obs, extra, T):
         return 'download reported success but the blob is not verified'
     if isinstance(obs['phase'], str) and obs['phase'].startswith('exc:'):
         return 'request_blob raised ' + obs['phase']
-    lim = obs['len']
-    if lim is not None and lim >= 0 and len(obs['wdata']) // 2 > lim:
-        return 'more bytes handed to the writer (%d) than the announced length %d' % (len(obs['wdata']) // 2, lim)
-    if lim is None and obs['wdata']:
+    lens = [x for x in extra['lens_seen'] if isinstance(x, int) and not isinstance(x, bool) and x >= 0]
+    if lens and len(obs['wdata']) // 2 > max(lens):
+        return 'more bytes handed to the writer (%d) than the blob length in force %r' % (len(obs['wdata']) // 2, lens)
+    if not extra['lens_seen'] and obs['wdata']:
         return 'bytes handed to the writer without a known length'
+    if verified and obs['len'] != len(on_disk):
+        return 'blob verified (%d bytes on disk) but blob.length is %r' % (len(on_disk), obs['len'])
     if extra['elapsed'] >= 2 * T and obs['phase'] == 'pending':
         return 'download still pending %s s after the request (timeouts are %s s each)' % (extra['elapsed'], T)
     if obs['phase'] != 'pending' and not verified and obs['phase'][0] != 'ok' and obs['open']:
@@ -563,7 +575,9 @@ def run_client_case(run, model, case):
     impl, bad, sig = [], None, None
     try:
         for i, rq in enumerate(case['requests']):
-            obs, extra = sess.request(rq['hash'], rq['known'], rq['events'])
+            if rq.get('same_blob') and getattr(sess, 'last_blob', None) is not None and sess.last_blob.get_is_verified():
+                break       # the earlier peer's bytes already verified the blob: nothing to retry
+            obs, extra = sess.request(rq['hash'], rq['known'], rq['events'], same_blob=bool(rq.get('same_blob')))
             impl.append(obs)
             b = monitor_client(rq, obs, extra, T)
             if b and not bad:
@@ -584,8 +598,10 @@ def run_client_case(run, model, case):
     if not modelled:
         run.count('monitor-only')
         return
-    mod = model.call('session', T=T, requests=[{'hash': r['hash'], 'known': r['known'], 'events': r['events']}
-                                              for r in case['requests']])
+    nrun = len([o for o in impl if o is not None])
+    mod = model.call('session', T=T, requests=[{'hash': r['hash'], 'known': 'prev' if r.get('same_blob') else r['known'],
+                                               'events': r['events']} for r in case['requests'][:max(nrun, 1)]])
+    mod = mod + [None] * (len(impl) - len(mod))
     if Flags.unmodelled:
         run.count('unmodelled-json-value')
         return
@@ -679,10 +695,10 @@ MISBEHAVIOURS = [
 ]
 
 
-def gen_request(rng, T, mis=None, size=None, blob_kind=None, frag=None, known_mode=None, drain_p=None):
+def gen_request(rng, T, mis=None, size=None, blob_kind=None, frag=None, known_mode=None, drain_p=None, blob=None):
     """one request of a session: the genuine blob, the peer's script (honest or one misbehaviour)"""
     size = size if size is not None else rng.choice([1, 2, 7, 24, 25, 100, 300, 1000, 4096])
-    blob = make_blob(rng, blob_kind or rng.choice(BLOB_KINDS), size)
+    blob = blob if blob is not None else make_blob(rng, blob_kind or rng.choice(BLOB_KINDS), size)
     h, n = sha(blob), len(blob)
     known_mode = known_mode or rng.choice(['none', 'none', 'right'])
     known = n if known_mode == 'right' else None
@@ -1644,6 +1660,166 @@ def gen_tcp_case(rng, i):
             'hostile_client': rng.choice([None, 'oversized', 'bad_json', 'illtyped'])}
 
 
+# ================================================================================ two peers racing for ONE blob (the downloader's peer race)
+
+def run_race_case(run, model, case):
+    """case: {'kind':'race','T','blob':hex,'known':n|None,'liar':tag,'honest':[hex chunks],'liar_events':[...],
+    'order':[ 'h' | 'l' ...]}: one real BlobFile, two concurrent request_blob calls (ports 4444 honest, 4445 lying),
+    segments of both peers delivered in the given interleaving, a loop run after each. Monitor only (the model
+    has one client): the property's clause that an honest transfer completes whatever another peer does."""
+    T = case['T']
+    blob_bytes = bytes.fromhex(case['blob'])
+    h = sha(blob_bytes)
+    loop = VLoop()
+    asyncio.set_event_loop(loop)
+    d = tempfile.mkdtemp(prefix='c10r')
+    trs = {}
+
+    def connect(p, host, port):
+        t = FakeTransport(loop, p, peer=(host, port))
+        trs[port] = t
+        return t
+    loop.fake_connect = connect
+    bad = None
+    try:
+        blob = SpyBlobFile(loop, h, case['known'], None, d)
+        th = None
+        if 's' not in case['order']:
+            th = loop.create_task(request_blob(loop, blob, '127.0.0.1', 4444, 3, T))
+            loop.drain()
+        tl = loop.create_task(request_blob(loop, blob, '127.0.0.1', 4445, 3, T))
+        loop.drain()
+        hq, lq = list(case['honest']), list(case['liar_events'])
+        for who in case['order']:
+            if who == 's' and th is None:
+                th = loop.create_task(request_blob(loop, blob, '127.0.0.1', 4444, 3, T))
+            elif who == 'h' and hq and 4444 in trs:
+                trs[4444].deliver(bytes.fromhex(hq.pop(0)))
+            elif who == 'l' and lq:
+                ev = lq.pop(0)
+                if 4445 in trs:
+                    if ev[0] == 'data':
+                        trs[4445].deliver(bytes.fromhex(ev[1]))
+                    elif ev[0] == 'lost':
+                        trs[4445].peer_close()
+            elif who == 'a':
+                loop.advance(1)
+            loop.drain()
+        for c in hq:
+            trs[4444].deliver(bytes.fromhex(c))
+            loop.drain()
+        loop.drain()
+        path = os.path.join(d, h)
+        on_disk = open(path, 'rb').read() if os.path.isfile(path) else None
+        verified = blob.get_is_verified()
+
+        def outcome(t):
+            if not t.done():
+                return 'pending'
+            if t.cancelled():
+                return 'cancelled'
+            if t.exception() is not None:
+                return 'exc:' + type(t.exception()).__name__
+            n, p = t.result()
+            return ['ok' if p is not None else 'closed', n]
+        oh, ol = outcome(th), outcome(tl)
+        retried = None
+        if case.get('expect') == 'retry' and not verified:
+            # the honest peer is asked again (what the downloader does next): this attempt must succeed
+            loop.advance(2 * T + 1)
+            tr3 = loop.create_task(request_blob(loop, blob, '127.0.0.1', 4446, 3, T))
+            loop.drain()
+            if 4446 in trs:
+                trs[4446].deliver(bytes.fromhex(''.join(case['honest'])))
+            loop.drain()
+            retried = outcome(tr3)
+            on_disk = open(path, 'rb').read() if os.path.isfile(path) else None
+            verified = blob.get_is_verified()
+        if verified and (on_disk is None or on_disk != blob_bytes):
+            bad = 'blob marked verified but the bytes on disk are not the blob'
+        elif not verified and on_disk is not None:
+            bad = 'unverified blob left on disk'
+        elif verified and blob.length != len(blob_bytes):
+            bad = 'blob verified but blob.length is %r' % (blob.length,)
+        elif not verified:
+            bad = ('an honest peer delivered the whole blob but it is not verified: honest request %r, other peer (%s) %r'
+                   ', honest retry %r, blob.length %r' % (oh, case['liar'], ol, retried, blob.length))
+        loop.advance(2 * T + 1)
+        if not bad and (th is None or not th.done() or not tl.done()):
+            bad = 'a request is still pending after both timeouts'
+        blob.close()
+        run.count('race:%s' % case['liar'])
+        run.count('race-honest:%s' % (oh if isinstance(oh, str) else oh[0]))
+    finally:
+        loop.shutdown()
+        asyncio.set_event_loop(None)
+        shutil.rmtree(d, ignore_errors=True)
+    run.case(case, nontrivial=True, validated=False)
+    if bad:
+        run.violation(case, bad, signature=case.get('finding') or {
+            'kind': 'race', 'liar': case['liar'], 'known': case['known'], 'order': case['order'], 'blob': case['blob'][:64]})
+
+
+LENGTH_SETTING_LIARS = {'len_plus', 'len_minus', 'len_zero', 'len_max', 'len_max_minus1', 'len_bool'}
+RACE_SKIP = {'oversized_open', 'oversized_ws', 'json_deep', 'brace_flood', 'cap_hdr_in', 'cap_hdr_out', 'cap_junk_in',
+             'cap_junk_out'}
+
+
+def length_poison_case(late_start=False):
+    """the defect repaired by `fix: a blob length announced by a peer that did not deliver the blob is forgotten`: a
+    peer announces a wrong (admissible) length for a blob whose length the client does not know, and fails; the
+    honest peer racing with it may be refused, but the honest RETRY must succeed (blob.length forgotten).
+    late_start: the honest request only starts after the liar's header has already set blob.length."""
+    blob = bytes((i * 7 + 3) % 251 for i in range(100))
+    h = sha(blob)
+    return {'kind': 'race', 'T': 3, 'blob': blob.hex(), 'known': None, 'liar': 'len_plus',
+            'when': 'late_start' if late_start else 'before', 'expect': 'retry',
+            'honest': [honest_header(h, 100).hex(), blob.hex()],
+            'liar_events': [['data', honest_header(h, 101).hex()], ['lost']],
+            'order': ['l', 's', 'l', 'h', 'h'] if late_start else ['l', 'l', 'h', 'h']}
+
+
+def demo3_race_case():
+    """/verif/seeded/C10-3/demo.py: correct header + corrupted bytes, finished while the honest transfer is half way"""
+    blob = bytes((i * 7 + 3) % 251 for i in range(3000))
+    h = sha(blob)
+    bad = bytes(b ^ 0x55 for b in blob)
+    return {'kind': 'race', 'T': 3, 'blob': blob.hex(), 'known': None, 'liar': 'corrupt', 'when': 'during',
+            'honest': [(honest_header(h, 3000) + blob[:1500]).hex(), blob[1500:].hex()],
+            'liar_events': [['data', (honest_header(h, 3000) + bad).hex()]], 'order': ['h', 'l', 'h']}
+
+
+def gen_race_case(rng, liar, when, T=3, size=None):
+    blob = make_blob(rng, rng.choice(BLOB_KINDS), size or rng.choice([2, 24, 100, 1000, 4096]))
+    n = len(blob)
+    known = rng.choice([None, n])
+    expect = 'retry' if (liar in LENGTH_SETTING_LIARS and known is None) else 'first'
+    hchunks = fragment(rng, honest_header(sha(blob), n) + blob, len(honest_header(sha(blob), n)), rng.choice(['random', 'split', 'partial', 'hdrcut', 'plus1']))
+    if len(hchunks) < 2:
+        hchunks = fragment(rng, hchunks[0], 0, 'random') if len(hchunks[0]) > 1 else hchunks
+    lr, _ = gen_request(rng, T, mis=liar, blob=blob, known_mode='none', drain_p=0.0)
+    lev = [e for e in lr['events'] if e[0] in ('data', 'lost')]
+    nh, nl = len(hchunks), len(lev)
+    if when == 'before':
+        order = ['l'] * nl + ['h'] * nh
+    elif when == 'after':
+        order = ['h'] * nh + ['l'] * nl
+    elif when == 'during':
+        k = rng.randrange(1, nh) if nh > 1 else 0
+        order = ['h'] * k + ['l'] * nl + ['h'] * (nh - k)
+    elif when == 'timeout':
+        k = rng.randrange(1, nh) if nh > 1 else 0
+        order = ['l'] * nl + ['h'] * k + ['a'] * (T - 1) + ['h'] * (nh - k)
+    elif when == 'late_start':
+        k = rng.randrange(1, nl + 1) if nl else 0
+        order = ['l'] * k + ['s'] + ['l'] * (nl - k) + ['h'] * nh
+    else:
+        order = ['h'] * nh + ['l'] * nl
+        rng.shuffle(order)
+    return {'kind': 'race', 'T': T, 'blob': blob.hex(), 'known': known, 'liar': liar, 'when': when, 'expect': expect,
+            'honest': [c.hex() for c in hchunks], 'liar_events': lev, 'order': order}
+
+
 # ================================================================================ server timers: slow readers, silent peers, stalled transfers
 
 def ref_timer_trace(events):
@@ -1822,8 +1998,32 @@ def dispatch(run, model, case):
         run_tcp_case(run, case)
     elif k == 'tserver':
         run_tserver_case(run, model, case)
+    elif k == 'race':
+        run_race_case(run, model, case)
     else:
         raise ValueError('unknown case kind %r' % (k,))
+
+
+def gen_retry_case(rng, liar, T=3):
+    """sequential: a lying peer is asked first for a blob of unknown length, then an honest peer for the SAME blob object"""
+    blob = make_blob(rng, rng.choice(BLOB_KINDS), rng.choice([2, 24, 100, 1000]))
+    r0, m0 = gen_request(rng, T, mis=liar, blob=blob, known_mode='none')
+    if not (r0['events'] and r0['events'][-1][0] == 'adv'):
+        r0['events'] = r0['events'] + [['adv', 2 * T + 1]]
+    r1, _ = gen_request(rng, T, mis=None, blob=blob, known_mode='none')
+    r1['same_blob'] = True
+    r1['tag'] = 'honest_retry'
+    return {'kind': 'client', 'T': T, 'requests': [r0, r1], 'modelled': m0}
+
+
+def retry_corpus_case():
+    blob = bytes((i * 7 + 3) % 251 for i in range(100))
+    h = sha(blob)
+    return {'kind': 'client', 'T': 3, 'modelled': True, 'requests': [
+        {'hash': h, 'known': None, 'truth': blob.hex(), 'honest': False, 'tag': 'len_plus', 'frag': 'one', 'size': 100,
+         'events': [['data', honest_header(h, 101).hex()], ['drain'], ['lost'], ['drain']]},
+        {'hash': h, 'known': None, 'truth': blob.hex(), 'honest': True, 'tag': 'honest_retry', 'frag': 'split', 'size': 100,
+         'same_blob': True, 'events': [['data', honest_header(h, 100).hex()], ['drain'], ['data', blob.hex()], ['drain']]}]}
 
 
 def f7_case():
@@ -1879,6 +2079,8 @@ def main(run):
         'boundary: honest e2e transfers of blobs of exactly MAX_BLOB_SIZE, MAX_BLOB_SIZE-1 and 1 byte requested by hash only. '
         'server timers: scripted slow readers (window fills, transfer stays in progress across idle_timeout), silent peers, stalled '
         'transfers, several transfers per connection, on the virtual clock, against the timer model and a reference trace. '
+        'race: one BlobFile, two concurrent request_blob calls, an honest scripted peer and each lying peer of the catalogue, the '
+        'liar failing before / during / after / by timeout / randomly interleaved with the honest segments (monitor only). '
         'parse: _parse_blob_response on mutated headers. thorough adds loopback TCP with the real BlobServer. '
         'distinct = distinct canonical case; non-trivial = every case.' % (len(MISBEHAVIOURS), len(SERVER_TAGS)))
     corpus_dir = os.path.join(vlib.VERIF, 'harness', 'corpus', 'C10')
@@ -1920,6 +2122,15 @@ def main(run):
         dispatch(run, model, gen_e2e_case(rng, big=True))
     for case in boundary_e2e_cases(rng):
         dispatch(run, model, case)
+    # --- two peers racing for one blob: every lying peer of the catalogue failing before / during / after the honest transfer
+    for rep in range(mult):
+        for liar in MISBEHAVIOURS:
+            if liar in RACE_SKIP:
+                continue
+            for when in ('before', 'during', 'after', 'timeout', 'random', 'late_start'):
+                dispatch(run, model, gen_race_case(rng, liar, when))
+            if liar not in ('len_bool',):
+                dispatch(run, model, gen_retry_case(rng, liar))
     # --- server timers: slow readers, silent peers, stalled transfers
     for case in fixed_tserver_cases():
         dispatch(run, model, case)
